@@ -525,6 +525,20 @@ fn divert_script(v: u8) -> Vec<String> {
             l.push("f() { ( kill -s USR2 $$; kill -s USR1 $$ ); echo in-f; }".into());
             l.push("f; echo \"?=$?\"".into());
         }
+        4 | 5 => {
+            // the `wait` built-in inside a trap action: a trapped signal that
+            // arrives while it waits interrupts it (status > 128) and has its
+            // action run at once, nested in the running action
+            let w = if v == 4 { "wait $j" } else { "wf() { wait $j; }; wf" };
+            l.push(format!(
+                "trap 'echo u1; {{ nap 8; }} & j=$!; {w}; s=$?; echo \"w=$((s>128))\"; wait $j; echo u1done' USR1"
+            ));
+            l.push("trap 'echo u2' USR2".into());
+            l.push("{ nap 3; kill -s USR2 $$; } &".into());
+            l.push("( kill -s USR1 $$ )".into());
+            l.push("echo mid".into());
+            l.push("wait".into());
+        }
         _ => {
             l.push("trap 'echo u1; trap - USR2' USR1".into());
             l.push("trap 'echo u2' USR2".into());
@@ -538,7 +552,7 @@ fn divert_script(v: u8) -> Vec<String> {
 
 fn gen_script(rng: &mut Rng, tier: Tier) -> Script {
     if rng.below(12) == 0 {
-        let v = rng.below(4) as u8;
+        let v = rng.below(6) as u8;
         return Script {
             lines: divert_script(v),
             trap1: true,
@@ -655,6 +669,20 @@ fn check_script(s: &Script, base: &Observed, obs: &Observed) -> Option<Viol> {
         // (3: the trap of USR2 is reset by the action of USR1 while USR2 is pending)
         let want_u2 = if v == 3 { 0 } else { 1 };
         // (0, 1: everything pending has run before the next command `echo then`)
+        if v >= 4 {
+            let want = "u1\nu2\nw=1\nu1done\nmid\nend\n";
+            if obs.stdout != want || obs.status != "exited:0" {
+                return Some((
+                    if u2 == 0 { "lost" } else { "divert" }.into(),
+                    "wait-in-action".into(),
+                    format!(
+                        "a trapped signal arrives while `wait` is waiting inside the action of another signal: expected stdout {want:?} status exited:0; observed stdout {:?} status {} stderr {:?}",
+                        obs.stdout, obs.status, obs.stderr
+                    ),
+                ));
+            }
+            return None;
+        }
         let order_ok = v > 1 || {
             let pos = |w: &str| obs.stdout.lines().position(|l| l == w);
             match (pos("t1done"), pos("u1"), pos("u2"), pos("then")) {
